@@ -967,7 +967,7 @@ def gen_nonlifo(rng):
 BIG_SIZES = [0, 1, 3, 8, 14, 15, 16, 17, 18, 15, 16, 17, 20, 24, 31, 32, 33, 40, 48, 64]
 CLEAR_VIAS = ['api', 'api', 'py', 'compiledpy']
 
-def gen_big_history(rng, maxsize=64):
+def gen_big_history(rng, maxsize=64, sizes=None):
     """ONE predicate that holds 0-3, about 16 (14..18), 20-31 or 32-64 facts (loaded first, mostly through assert_fact),
     whose FIRST ARGUMENTS are atoms only (one key / 2-3 keys: a table), atoms and integers, or a mix of atoms, integers,
     variables, structures, strings, [] in any order (possibly a variable-first fact at the very front); then queries and
@@ -978,7 +978,7 @@ def gen_big_history(rng, maxsize=64):
     name = rng.choice(NAMES)
     ar = rng.choice([1, 2, 2, 2, 3])
     prof = rng.choice(['atoms', 'atoms', 'atoms', 'onekey', 'atomint', 'mixed', 'mixed', 'mixed', 'mixed'])
-    size = rng.choice([s_ for s_ in BIG_SIZES if s_ <= maxsize])
+    size = rng.choice(sizes or [s_ for s_ in BIG_SIZES if s_ <= maxsize])
     nkeys = rng.choice([2, 3])
     atoms = [['a', x] for x in ATOMS[:nkeys]]
     serial = [0]
